@@ -286,10 +286,16 @@ impl Iterator for BackoffStrategyIter {
             return None;
         }
 
+        // Delays that would overflow saturate instead of panicking or wrapping around
         let mut next_duration = match self.strategy_type {
-            Strategy::Linear => step * current_attempt,
+            Strategy::Linear => step.checked_mul(current_attempt).unwrap_or(Duration::MAX),
             Strategy::Constant => step,
-            Strategy::Exponential(factor) => step.mul_f64(factor.pow(current_attempt - 1) as f64),
+            Strategy::Exponential(factor) => factor
+                .checked_pow(current_attempt - 1)
+                .and_then(|multiplier| {
+                    Duration::try_from_secs_f64(step.as_secs_f64() * multiplier as f64).ok()
+                })
+                .unwrap_or(Duration::MAX),
         };
 
         self.current_attempt += 1;
